@@ -299,7 +299,7 @@ func extractC11(c *ctxT) {
 
 /-- facts read from the AST of handlerTransferShares, decrementAllowance, the two Run methods
 (x/staking/precompile/transfer_shares.go) and the argument validators (x/staking/types/contract.go) -/
-` + c11ProgTypes + c11WrapType + `structure Cfg where
+` + c11ProgTypes + c11WrapType + c11RunTypes + `structure Cfg where
   /-- an ` + "`if from == to { … return …, nil }`" + ` stands before the first state-changing call -/
   selfGuard : Bool
   /-- HasReceivingRedelegation(ctx, from…, valAddr) followed by ` + "`if has { return error }`" + ` -/
@@ -335,15 +335,21 @@ func extractC11(c *ctxT) {
   prog : List Stmt
   /-- the Run methods of delegateV2 / undelegateV2 / redelegateV2 / withdraw / approveShares (see go/extract/c11wrap.go) -/
   wrappers : List Wrapper
+  /-- the native action of TransferShares.Run, statement by statement (see go/extract/c11run.go) -/
+  runTransfer : List RStmt
+  /-- the native action of TransferFromShares.Run, statement by statement: which call, for whom, in which order, under
+  which condition -/
+  runFrom : List RStmt
 deriving Repr, DecidableEq
 
 `)
 	fmt.Fprintf(&sb, "def cfg : Cfg :=\n  { selfGuard := %s, refuseRecvRedel := %s, sharesCmp := %s, withdrawFrom := %s,\n"+
 		"    toLookupBeforeFromWrite := %s, withdrawTo := %s, incPeriodForNewTo := %s, decRefOnRemoval := %s,\n"+
 		"    delInfoOnRemoval := %s, incRefForNewTo := %s, newToPeriodOffset := %d, allowanceCheck := %s,\n"+
-		"    allowanceSubDecrease := %s, transferFromArgs := %s, sharesPositive := %s,\n    prog := [\n      %s],\n    wrappers := %s }\n\n",
+		"    allowanceSubDecrease := %s, transferFromArgs := %s, sharesPositive := %s,\n    prog := [\n      %s],\n    wrappers := %s,\n    runTransfer := [%s],\n    runFrom := [%s] }\n\n",
 		b(selfGuard), b(refuse), leanStr(sharesCmp), b(withdrawFrom), b(lookupFirst), b(withdrawTo), b(incPeriod), b(decRef),
-		b(delInfo), b(incRef), offset, b(allowCheck), b(allowSub), b(runArgs), b(sharesPositive), strings.Join(prog, ",\n      "), c11WrapLean(c.c11Wrappers()))
+		b(delInfo), b(incRef), offset, b(allowCheck), b(allowSub), b(runArgs), b(sharesPositive), strings.Join(prog, ",\n      "), c11WrapLean(c.c11Wrappers()),
+		strings.Join(c.c11RunProg(runTo), ", "), strings.Join(c.c11RunProg(runFrom), ", "))
 	var ls []string
 	for _, s := range steps {
 		ls = append(ls, leanStr(s))
@@ -359,5 +365,7 @@ deriving Repr, DecidableEq
 	}
 	c.facts["C11.steps"] = steps
 	c.facts["C11.prog"] = prog
+	c.facts["C11.runTransfer"] = c.c11RunProg(runTo)
+	c.facts["C11.runFrom"] = c.c11RunProg(runFrom)
 	c.facts["C11.handlerFound"] = h != nil
 }
